@@ -204,3 +204,67 @@ func checkC04CallbackTypes(c *Ctx, n int) {
 		c.Check("a-callback-that-accepts-its-value-is-no-rejection", ok, "C04:callback-result-type", in, got, want)
 	}
 }
+
+// exHostSet: a struct option type that cannot be compared with == (it holds a slice)
+type exHostSet struct{ hosts []string }
+
+func (h *exHostSet) UnmarshalFlag(v string) error { h.hosts = append(h.hosts, v); return nil }
+
+// exPair: a comparable struct option type (control)
+type exPair struct{ a, b string }
+
+func (p *exPair) UnmarshalFlag(v string) error { p.a = v; return nil }
+
+type exFuncBox struct{ f func() }
+
+func (p *exFuncBox) UnmarshalFlag(v string) error { return nil }
+
+type exMapBox struct{ m map[string]int }
+
+func (p *exMapBox) UnmarshalFlag(v string) error { return nil }
+
+// checkC04StructTypes: options whose field type is a struct with a conversion of its own - comparable
+// or not (a slice, map or func inside) - with and without a default tag, on every kind of argument
+// vector: ParseArgs returns normally, rejections are typed.
+func checkC04StructTypes(c *Ctx, n int) {
+	r := c.Rng
+	types := []reflect.Type{reflect.TypeOf(exHostSet{}), reflect.TypeOf(exPair{}), reflect.TypeOf(exFuncBox{}), reflect.TypeOf(exMapBox{})}
+	for i := 0; i < n; i++ {
+		t := types[r.Intn(len(types))]
+		if r.Intn(3) == 0 {
+			t = reflect.PtrTo(t)
+		}
+		tag := `long:"hosts" short:"H"`
+		if r.Intn(3) == 0 {
+			tag += ` default:"d"`
+		}
+		st := reflect.StructOf([]reflect.StructField{
+			{Name: "V", Type: reflect.TypeOf(false), Tag: `short:"v"`},
+			{Name: "Hosts", Type: t, Tag: reflect.StructTag(tag)},
+		})
+		argv := [][]string{{}, {"-v"}, {"--hosts=a"}, {"-H", "a", "--hosts", "b"}, {"--nosuch"}, {"--help"}, {"w"}}[r.Intn(7)]
+		opts := []flags.Options{flags.None, flags.Default &^ flags.PrintErrors, flags.IgnoreUnknown}[r.Intn(3)]
+		v := reflect.New(st)
+		var err error
+		pan := safe(func() { _, err = flags.NewParser(v.Interface(), opts).ParseArgs(argv) })
+		c.R.Evaluations++
+		desc := fmt.Sprintf("Hosts %s `%s`, options %d, argv %q", t, tag, opts, argv)
+		c.Distinct("c04struct|" + desc)
+		c.Class(fmt.Sprintf("c04/struct-typed option %s", t))
+		in := map[string]interface{}{"declaration": fmt.Sprintf("Hosts %s `%s`", t, tag), "parser_options": uint(opts), "argv": argv}
+		got := "returns normally"
+		ok := pan == nil
+		if pan != nil {
+			got = fmt.Sprintf("panic: %v", pan)
+		} else if err != nil {
+			if _, isFlags := err.(*flags.Error); !isFlags {
+				ok = false
+			}
+			got = fmt.Sprintf("error (%T): %v", err, err)
+			if len(got) > 200 {
+				got = got[:200]
+			}
+		}
+		c.Check("struct-typed-options-never-make-parsing-panic", ok, "C04:struct-type", in, got, "a normal return: success or a *flags.Error")
+	}
+}
